@@ -42,8 +42,23 @@ def main():
         print('INFRASTRUCTURE: %s' % e, flush=True)
         chk.cleanup()
         return 2
-    except Exception:
+    except Exception as e:
         traceback.print_exc()
+        # An exception raised INSIDE the code under test (a frame of the traceback lies in REPO/uwg)
+        # that the harness did not anticipate means the implementation no longer behaves as the
+        # model and the adapters expect: the correspondence is broken (reported as such, with no
+        # concrete failing input). Anything else is a defect of the check itself: exit 2.
+        frames = traceback.extract_tb(e.__traceback__)
+        root = os.path.join(os.path.abspath(core.REPO), 'uwg') + os.sep
+        inside = [f for f in frames if os.path.abspath(f.filename).startswith(root)]
+        if inside:
+            f = inside[-1]
+            chk.corr_problems.append({
+                'tie': 'harness adapter', 'case': None,
+                'impl': '%s: %s raised at %s:%d (%s)' % (type(e).__name__, str(e)[:200],
+                                                        os.path.relpath(f.filename, core.REPO), f.lineno, f.name),
+                'model': 'no exception expected by the model / adapter at this call'})
+            return chk.finish()
         print('INFRASTRUCTURE: unexpected exception in the check itself', flush=True)
         chk.cleanup()
         return 2
